@@ -283,3 +283,6 @@ package utils
 //@ ensures clock == old(clock) + 1 && doneAt == clock
 
 //@ globalfact #counters: walWrites >= 0 && infoN >= 0 && clock >= 0
+
+// recvCount: number of channel receives executed (channels themselves are abstracted)
+//@ ghost var recvCount int
